@@ -186,6 +186,12 @@ def check_case(case):
             viol("add", f"p + p weights {Ws}")
         if n >= 5:
             break
+    # a ballot of weight zero gives its content the total weight zero, as does its absence: same weights, hence equal profiles
+    if base is not None and n <= 2:
+        zb = Ballot(ranking=(frozenset(["Zed"]), frozenset(["A"])), weight=F(0))
+        pz = PreferenceProfile(ballots=base.ballots + (zb,))
+        if not (pz == base) or not (base == pz):
+            viol("eq:zero-weight-ballot", "a profile and the same profile with an extra zero-weight ballot assign the same total weight to every content but compare unequal")
     # same rankings and the same score cards, paired differently: different contents, hence unequal profiles
     A_, B_ = frozenset("A"), frozenset("B")
     p1 = PreferenceProfile(ballots=(Ballot(ranking=(A_, B_), scores={"A": 2}, weight=ws[0]), Ballot(ranking=(B_, A_), scores={"B": 2}, weight=ws[0])))
